@@ -181,6 +181,9 @@ func init() {
 				nontriv := len(w.Tables[op.Parent]) >= 2
 				r.Case("world", canon(cs), nontriv)
 				r.H("world.op", op.Kind+"/"+op.Shape)
+				if op.Twice || op.Unscoped {
+					r.H("world.flags", fmt.Sprintf("twice=%v unscoped=%v", op.Twice, op.Unscoped))
+				}
 				if op.Kind == "query" {
 					if op.All {
 						r.H("world.node", "clause.Associations")
